@@ -269,3 +269,160 @@ def check_C18(ctx):
 
 def replay_C18(ctx):
     return check_C18(ctx)
+
+
+# ------------------------------------------------------------------------------------------------ pub properties (shared run)
+
+import hashlib, subprocess
+
+
+def tree_key(extra):
+    h = hashlib.sha256()
+    h.update(subprocess.run("git -C %s rev-parse HEAD; git -C %s diff HEAD -- pub streams astool | sha256sum" % (REPO, REPO), shell=True, capture_output=True).stdout)
+    for d in ("tools/harness", "coq/Pub", "coq/Base", "coq/Run"):
+        for root, _, files in sorted(os.walk(os.path.join(ROOT, d))):
+            for f in sorted(files):
+                if f.endswith((".go", ".v")) and f != "gen_calls.go":
+                    h.update(open(os.path.join(root, f), "rb").read())
+    h.update(repr(extra).encode())
+    return h.hexdigest()[:20]
+
+
+def parse_idx_tuples(s):
+    """[(i, (a, b, "c")); ...] or [(i, (k, "tag", "id", bool))] -> list of (i, [fields])"""
+    s = re.sub(r"\s+", " ", s)
+    out = []
+    for m in re.finditer(r'\((\d+), \(([^()]*)\)\)', s):
+        fields = [f.strip().strip('"') for f in re.split(r',(?=(?:[^"]*"[^"]*")*[^"]*$)', m.group(2))]
+        out.append((int(m.group(1)), fields))
+    return out
+
+
+PUB_STD = {"quick": ["-families", "inbox,outbox,get", "-n", "6", "-faults", "single", "-maxruns", "3000"],
+           "thorough": ["-families", "inbox,outbox,get", "-n", "40", "-faults", "single", "-maxruns", "30000"]}
+
+
+def pub_run(ctx, tag, args, cases_tpl="PubMonitorCases.v"):
+    """Run the pub harness with args, replay + monitors in Coq. Cached per tree state."""
+    okb, outb = harness_build(ctx)
+    if not okb:
+        return {"error": "harness-build", "out": outb}
+    okm, outm, _ = coq_make(ctx, ["Pub/Replay.vo", "Pub/Monitors.vo"])
+    if not okm:
+        return {"error": "model-build", "out": outm}
+    key = tree_key((tag, args, ctx.seed, cases_tpl))
+    cdir = os.path.join(ROOT, "run", "pubcache", key)
+    res_path = os.path.join(cdir, "result.json")
+    if os.path.exists(res_path):
+        ctx.note("pub run %s: cached (%s)" % (tag, key))
+        return json.load(open(res_path))
+    os.makedirs(cdir, exist_ok=True)
+    b = os.path.join(ROOT, "tools", "bin", "harness")
+    rc, out, dt = sh([b, "pub"] + args + ["-out", cdir, "-seed", str(ctx.seed), "-tier", ctx.tier], timeout=3000)
+    ctx.note("harness pub %s rc=%d (%.1fs) %s" % (tag, rc, dt, out.strip()[-80:]))
+    if rc != 0:
+        return {"error": "harness-run", "out": out[-3000:]}
+    shutil.copyfile(os.path.join(ROOT, "coq", "Run", cases_tpl), os.path.join(cdir, "cases.v"))
+    t0 = time.time()
+    cmd = ["coqc", "-Q", os.path.join(ROOT, "coq"), "Verif", "-Q", cdir, "Run", "observed.v"]
+    rc1, out1, _ = sh(cmd, cwd=cdir, timeout=3000)
+    rc2, out2, _ = sh(cmd[:-1] + ["cases.v"], cwd=cdir, timeout=3000) if rc1 == 0 else (1, out1, 0)
+    ctx.note("coqc replay+monitors rc=%d (%.1fs)" % (rc2, time.time() - t0))
+    if rc2 != 0:
+        return {"error": "cases-eval", "out": (out1 + out2)[-3000:]}
+    defs = parse_defs(out2)
+    summ = json.load(open(os.path.join(cdir, "summary.json")))
+    res = {"defs": {k: parse_idx_tuples(v) for k, v in defs.items() if k.endswith("_bad")},
+           "n": int(re.sub(r"\D", "", defs.get("n_observed", "0").split(":")[0]) or 0),
+           "summary": {k: summ[k] for k in ("evaluations", "distinct_nontrivial", "rule", "distribution")},
+           "runs": summ["extra"]["runs"], "dir": cdir}
+    json.dump(res, open(res_path, "w"))
+    for fn in ("observed.vo", "observed.glob", "cases.vo", "cases.glob"):
+        try:
+            os.remove(os.path.join(cdir, fn))
+        except OSError:
+            pass
+    return res
+
+
+# which classes of replay disagreement concern which property
+RELEVANT = {
+    "C07": {"app", "response", "result"}, "C10": {"response", "result"}, "C09": {"lock", "db"},
+    "C02": {"transport", "deliver"}, "C03": {"deliver", "response"}, "C05": {"db", "deliver", "response"},
+    "C04": {"db", "deliver", "app"}, "C06": {"db", "app"}, "C16": {"db", "deliver"}, "C17": {"db", "deliver", "transport", "app"},
+    "C20": {"response", "clock"}, "C11": {"result"},
+}
+
+
+def pub_property(ctx, pid, prop_file, model_files, judge, family_filter=None, run_specs=None):
+    pr = proof_stage(ctx, prop_file)
+    cov_from_proof(ctx, pr, model_files)
+    found = False
+    specs = run_specs or [("std", PUB_STD[ctx.tier])]
+    res = None
+    for tag, args in specs:
+        r1 = pub_run(ctx, tag, args)
+        if "error" in r1:
+            res = r1
+            break
+        if res is None:
+            res = r1
+        else:  # concatenate, shifting indices
+            off = len(res["runs"])
+            res = {"defs": {k: res["defs"].get(k, []) + [(i + off, f) for (i, f) in r1["defs"].get(k, [])] for k in set(res["defs"]) | set(r1["defs"])},
+                   "n": res["n"] + r1["n"], "runs": res["runs"] + r1["runs"],
+                   "summary": {"evaluations": res["summary"]["evaluations"] + r1["summary"]["evaluations"], "distinct_nontrivial": 0,
+                               "rule": res["summary"]["rule"], "distribution": {"first": res["summary"]["distribution"], tag: r1["summary"]["distribution"]}}}
+    if "error" in res:
+        ctx.violation("%s:%s" % (pid, res["error"]), "the correspondence run could not be performed", {"kind": res["error"], "output": res.get("out", "")[-3000:], "unchecked": "correspondence " + pid}, nofail=True)
+        return finish(ctx, "proof")
+    runs = res["runs"]
+    sel = [i for i, r in enumerate(runs) if family_filter is None or family_filter(r["family"])]
+    selset = set(sel)
+    ctx.coverage.update({"evaluations": len(sel), "rule": res["summary"]["rule"] + "; " + judge.get("rule", ""),
+                         "input_distribution": res["summary"]["distribution"], "samples": [runs[i] for i in sel[:2]]})
+    # direct judgement of the implementation's traces
+    nbad = 0
+    for name in judge["monitors"]:
+        for (i, fields) in res["defs"].get(name, []):
+            if i not in selset:
+                continue
+            sig, text = judge["classify"](name, fields, runs[i])
+            if sig is None:
+                continue
+            nbad += 1
+            if ctx.violation(sig, text, {"kind": "run", "index": i, "run": runs[i], "monitor": name, "detail": fields}):
+                found = True
+    ctx.coverage["distinct_nontrivial"] = len(set(json.dumps([runs[i]["family"], runs[i]["faults"], runs[i]["result"], runs[i]["events"]]) for i in sel if runs[i]["events"] > 3))
+    # correspondence: replay disagreements of a class that concerns this property
+    rel = RELEVANT.get(pid, set())
+    disagreements = [(i, f) for (i, f) in res["defs"].get("replay_bad", []) if i in selset]
+    relevant = [(i, f) for (i, f) in disagreements if (f[0] == "1" and "result" in rel) or (f[0] in ("2", "3") and (f[2] in rel or f[0] == "3"))]
+    ctx.coverage["traces_validated_against_impl"] = len(sel) - len(disagreements)
+    ctx.coverage["disagreements"] = {"replay_total": len(disagreements), "replay_relevant_to_property": len(relevant), "monitor_flags": nbad}
+    if relevant and not found:
+        i, f = relevant[0]
+        ctx.violation("%s:replay-drift" % pid, "the model of package pub no longer replays the recorded run",
+                      {"kind": "correspondence", "projection": "%s replay (classes %s)" % (pid, sorted(rel)), "index": i, "detail": f, "run": runs[i], "count": len(relevant)}, nofail=True)
+    if not pr["built"] and not found:
+        ctx.violation("%s:proof:%s" % (pid, pr.get("broken_lemma")), "theorem no longer checks",
+                      {"kind": "proof", "file": pr.get("broken_file"), "theorem": pr.get("broken_lemma"), "error": (pr.get("error") or pr.get("out", ""))[-3000:]}, nofail=True)
+    return finish(ctx, "proof")
+
+
+GATE = {"quick": ["-families", "gate", "-gate", "600"], "thorough": ["-families", "gate", "-gate", "0", "-maxruns", "40000"]}
+
+
+def check_C07(ctx):
+    def classify(name, fields, run):
+        return ("C07:%s:%s" % (run["family"], fields[1][:40]), "%s: %s (%s)" % (run["family"], fields[1], run.get("note") or run["result"]))
+    return pub_property(ctx, "C07", "Properties/C07.v",
+                        ["Pub/BaseActor.v and below (free-monad model of package pub), Pub/Monitors.v gate_step",
+                         "modelled, not verified: http.Header.Set is not an observable call; header strings are compared byte for byte; the handler takes no authentication (documented)"],
+                        {"monitors": ["gate_bad"], "classify": classify,
+                         "rule": "C07 product {entry} x {protocols} x {auth} x {block} x {method} x {12 header variants} x {4 bodies}: covering sample in the quick tier, complete in the thorough tier; plus all std scenarios with single faults"},
+                        run_specs=[("gate", GATE[ctx.tier]), ("std", PUB_STD[ctx.tier])])
+
+
+def replay_C07(ctx):
+    return check_C07(ctx)
